@@ -68,9 +68,10 @@ def _invert_linear_equations(
 def _perturb_variables(
     config: EnOptConfig,
     variables: NDArray[np.float64],
-    samplers: list[Sampler],
+    samplers: list[Sampler | None],
 ) -> NDArray[np.float64]:
     if config.gradient.samplers is None:
+        assert samplers[0] is not None
         samples = samplers[0].generate_samples()
     else:
         # The results should be independent of the order of the samplers,
@@ -84,10 +85,19 @@ def _perturb_variables(
             ),
             return_index=True,
         )
-        sampler_indices = unique[np.argsort(indices)]
-        samples = samplers[sampler_indices[0]].generate_samples()
-        for sampler_idx in sampler_indices[1:]:
-            samples += samplers[sampler_idx].generate_samples()
+        samples = np.zeros(
+            (
+                config.realizations.weights.size,
+                config.gradient.number_of_perturbations,
+                variables.shape[-1],
+            ),
+            dtype=np.float64,
+        )
+        for sampler_idx in unique[np.argsort(indices)]:
+            sampler = samplers[sampler_idx]
+            # Samplers that only handle fixed variables are not available:
+            if sampler is not None:
+                samples = samples + sampler.generate_samples()
     return _apply_bounds(
         variables + config.gradient.perturbation_magnitudes * samples,
         config.variables.lower_bounds,
